@@ -281,6 +281,9 @@ func (a *attempt) feeder(stop chan struct{}, wg *sync.WaitGroup) {
 					a.net.count("tx_pool_accepts", 1)
 				} else {
 					a.net.count("tx_pool_rejects", 1)
+					if os.Getenv("C19_DEBUG") != "" {
+						fmt.Println("pool reject:", err)
+					}
 				}
 			}
 			a.net.count("txs_submitted", 1)
